@@ -612,6 +612,28 @@ impl Runner {
         }
     }
 
+    /// one word run with the stack limit set to `lim` (`Xstate::set_stack_limit`) and the limit taken off again: three
+    /// tokens `L=<lim>`, the word, `L=-` and three reports (the limit itself changes nothing that is reported)
+    pub fn word_limited(&mut self, word: &str, tok: String, lim: usize, prev: &Obs) -> Option<(Result<(), Xerr>, Obs)> {
+        self.toks.push(format!("L={}", lim));
+        self.report("ok", prev);
+        self.toks.push(tok);
+        let xs = &mut self.xs;
+        let res = crate::guarded(|| { xs.set_stack_limit(Some(lim))?; let r = xs.eval(word); xs.set_stack_limit(None)?; Ok::<_, Xerr>(r) });
+        let res = match res { Some(Ok(r)) => Some(r), Some(Err(e)) => Some(Err(e)), None => None };
+        let obs = match &res { Some(_) => observe(&mut self.xs), None => None };
+        match (res, obs) {
+            (Some(res), Some(obs)) => {
+                let st = match &res { Ok(()) => "ok".to_string(), Err(e) => format!("err:{}", canon::err(e)) };
+                self.report(&st, &obs);
+                self.toks.push("L=-".into());
+                self.report("ok", &obs);
+                Some((res, obs))
+            }
+            _ => { self.reports.push("panic".into()); self.dead = true; None }
+        }
+    }
+
     /// `Xstate::intercept_output`
     pub fn intercept(&mut self, yes: bool) {
         self.toks.push(if yes { "I+" } else { "I-" }.into());
@@ -877,6 +899,31 @@ fn one_sequence(ctx: &mut Ctx, base: &Xstate, nops: usize) {
         // a host opens inputs through the API (`set_binary_input`): the same operation as the word
         let via_api = word == "open-bitstr" && matches!(before.stack.last(), Some(Cell::Bitstr(_))) && ctx.rng.chance(30);
         if via_api { ctx.tag("api:set_binary_input"); }
+        // sometimes the word runs with the stack limit just at, or just above, what the stack holds once the word has
+        // taken its arguments: the push of its result is refused, or just fits (decided by the model; the reference
+        // cursor of `oracle_step` knows no limit and is not consulted for these)
+        let limited: Option<usize> = if !via_api && ctx.rng.chance(6) {
+            let d = before.stack.len().saturating_sub(arity(&word));
+            Some(if ctx.rng.chance(65) { d } else { d + 1 })
+        } else { None };
+        if let Some(lim) = limited {
+            ctx.tag("api:set_stack_limit");
+            match rn.word_limited(&word, tok, lim, &before) {
+                Some((res, after)) => {
+                    ctx.tag(&format!("outcome-under-limit:{}:{}", wclass, tag_of_result(&res)));
+                    if res.is_err() {
+                        // whatever the reason, a word that failed moved nothing
+                        let same = after.bits == before.bits && after.start == before.start && after.offset == before.offset;
+                        ctx.check(same, || format!("{} (stack limit {})", case, lim), || format!("input and offset {} untouched", before.offset), || format!("offset {}", after.offset));
+                    }
+                    // the reference cursor follows what happened
+                    if res.is_ok() { oracle_step(ctx, &mut rc, &word, &res, &before, &after, &case); }
+                    obs = after;
+                }
+                None => { ctx.tag("outcome:panic"); ctx.oracle_fail(case, "a result or an error value, never a panic".into(), "panic".into()); }
+            }
+            continue;
+        }
         match if via_api { rn.open_api(tok) } else { rn.word(&word, tok) } {
             Some((res, after)) => {
                 ctx.tag(&format!("outcome:{}:{}", wclass, tag_of_result(&res)));
